@@ -421,6 +421,12 @@ def run(ctx):
             H = gdef[0]
             gcall = rsc.assigns[H][0].value
             name_kw = next((k.value for k in gcall.keywords if k.arg == "name"), None)
+            if name_kw is None:
+                # the name given right after construction: `H.name = ...` / `H.graph["name"] = ...` (networkx stores both in H.graph)
+                later = [n.value for n in re_.node.body if isinstance(n, ast.Assign) and len(n.targets) == 1
+                         and txt(n.targets[0]) in (f"{H}.name", f"{H}.graph['name']", f'{H}.graph["name"]')]
+                if len(later) == 1:
+                    name_kw = later[0]
             parts = set()
             if isinstance(name_kw, ast.JoinedStr):
                 parts = {txt(rsc.resolve(v.value)) for v in name_kw.values if isinstance(v, ast.FormattedValue)}
@@ -478,7 +484,16 @@ def run(ctx):
                 accs = [s for s in vl[0].body if isinstance(s, (ast.Assign, ast.AnnAssign)) and astx.const_value(s.value) == 1]
                 acc = txt(accs[0].targets[0] if isinstance(accs[0], ast.Assign) else accs[0].target) if accs else None
                 init0 = [s for s in th.body if isinstance(s, (ast.Assign, ast.AnnAssign)) and txt(s.targets[0] if isinstance(s, ast.Assign) else s.target) == S]
-                if acc and txt(sums[0].value) == acc and init0 and astx.const_value(init0[0].value) == 0:
+                # every vertex contributes: a `continue` / `break` of the vertex loop itself (e.g. "skip isolated vertices") drops terms
+                # while the denominator still counts all vertices
+                parv = astx.Parents(th.node)
+                skips = [n for n in ast.walk(vl[0]) if isinstance(n, (ast.Continue, ast.Break)) and parv.loops_of(n) and parv.loops_of(n)[0] is vl[0]
+                         and getattr(n, "lineno", 0) < getattr(sums[0], "lineno", 10 ** 9)]
+                if skips:
+                    cs_ = rules.path_conditions(parv, skips[0], upto=vl[0])
+                    o.violated(th, skips[0], f"the final loop skips a vertex when `{' and '.join(txt(t_) for t_, _ in cs_)[:80]}`: its product (1 for a vertex without messages) is not added "
+                                             f"to {S}, yet the result still divides by ALL vertices - the fraction comes out too large", shape_free=True)
+                elif acc and txt(sums[0].value) == acc and init0 and astx.const_value(init0[0].value) == 0:
                     o.holds(th, sums[0], f"{S} = sum over all vertices of the per-vertex product (starting at 0)")
                 else:
                     o.violated(th, sums[0], f"`{txt(sums[0])}` does not add each vertex's product exactly once to a sum starting at 0")
@@ -498,8 +513,43 @@ def run(ctx):
                 o.undecided(f"{name} takes no label", m)
                 continue
             lp = own_[0]
-            if len(body) == 1 and isinstance(body[0], ast.Return) and match(pat(p.replace("$l", lp)), body[0].value) is not None:
+            # locals (`parts = label.split('-')`, `*_, last = label.split('-')`) are read through
+            if len(body) >= 2 and isinstance(body[-1], ast.Return) and body[-1].value is not None and all(isinstance(b_, ast.Assign) and len(b_.targets) == 1 for b_ in body[:-1]):
+                env_ = {}
+                okb = True
+                for b_ in body[:-1]:
+                    t_, v_ = b_.targets[0], b_.value
+                    if isinstance(t_, ast.Name):
+                        env_[t_.id] = v_
+                    elif isinstance(t_, ast.Tuple) and sum(isinstance(e_, ast.Starred) for e_ in t_.elts) == 1 and all(isinstance(e_.value if isinstance(e_, ast.Starred) else e_, ast.Name) for e_ in t_.elts):
+                        k_ = next(i for i, e_ in enumerate(t_.elts) if isinstance(e_, ast.Starred))
+                        for i, e_ in enumerate(t_.elts):
+                            if i < k_:
+                                env_[e_.id] = ast.Subscript(value=v_, slice=ast.Constant(value=i), ctx=ast.Load())
+                            elif i > k_:
+                                env_[e_.id] = ast.Subscript(value=v_, slice=ast.UnaryOp(op=ast.USub(), operand=ast.Constant(value=len(t_.elts) - i)), ctx=ast.Load())
+                    else:
+                        okb = False
+                if okb:
+                    class _S(ast.NodeTransformer):
+                        def visit_Name(self, n):
+                            return ast.copy_location(__import__("copy").deepcopy(env_[n.id]), n) if isinstance(n.ctx, ast.Load) and n.id in env_ else n
+                    rv_ = body[-1].value
+                    for _ in range(4):
+                        rv_ = _S().visit(__import__("copy").deepcopy(rv_))
+                    ast.fix_missing_locations(rv_)
+                    r_ = ast.Return(value=ast.parse(txt(rv_), mode="eval").body)
+                    ast.copy_location(r_, body[-1])
+                    ast.fix_missing_locations(r_)
+                    body = [r_]
+            syn_ = {"get_motif_ID": ["int($l.rsplit('-', 1)[-1])", "int($l.rsplit('-', 1)[1])", "int($l.rpartition('-')[2])", "int($l.rpartition('-')[-1])", "int($l.split('-')[3])"],
+                    "get_motif_topology": ["int($l.split('-', 1)[0])", "int($l.partition('-')[0])", "int($l.split('-')[-4])"]}.get(name, [])
+            if len(body) == 1 and isinstance(body[0], ast.Return) and any(match(pat(q_.replace("$l", lp)), body[0].value) is not None for q_ in [p] + syn_):
                 o.holds(m, body[0], f"{name}: {p.replace('$l', 'label')}")
+            elif len(body) == 1 and isinstance(body[0], ast.Return) and body[0].value is not None and any(
+                    isinstance(x_, ast.Subscript) and isinstance(x_.value, ast.Name) and x_.value.id == lp for x_ in ast.walk(body[0].value)):
+                o.violated(m, body[0], f"{name} returns `{txt(body[0].value)}`: it takes CHARACTERS of the label, not its '-' separated fields "
+                                       f"(an id / key of two digits is cut to one); expected {p.replace('$l', lp)}", shape_free=True)
             elif len(body) == 1 and isinstance(body[0], ast.Return) and "split('-')" in txt(body[0].value):
                 o.violated(m, body[0], f"{name} returns `{txt(body[0].value)}`, the label layout is key-[vertices]-[edges]-id: expected {p.replace('$l', lp)}")
             else:
